@@ -43,6 +43,7 @@ CLAUSE_PROPERTY = {
     "RS_WholeCopies": "C07",
     "RS_Count": "C06",
     "RS_LabelRange": "C14",
+    "RS_LabelsFromModel": "C14",
     "MP_Count": None,
     "MP_Coherent": "C07",
     "MP_NoInf": "C11",
@@ -309,6 +310,7 @@ class Recorder:
                 self._pred_calls.append((np.array(X, copy=True), np.array(r, copy=True)))
                 return r
 
+            self._orig_predict = opred
             cl.fit, cl.predict = fit, predict
 
     # ------------------------------------------------------------------ hook sink
@@ -544,14 +546,31 @@ class Recorder:
                     labels.append(seen.pop())
                 else:
                     labels.append(-1)
+        elif beta == 0.0:
+            labels = [0] * int(getattr(ms, "K", 1))      # dummy mode of the prior phase (never used by a kernel)
         else:
-            labels = [0] * int(getattr(ms, "K", 1))
+            labels = [-1] * int(getattr(ms, "K", 1))     # no fit observed in this iteration: these modes do not come from the current pool
         self._last_modes = (ms, labels)
         self._emit("Train", branch=branch, fitted=bool(self._clusterer_fits > 0), K=K, modes=labels,
                    modesOK=self._mode_info(ms), nModes=int(getattr(ms, "K", 0)))
 
     def _on_resampled(self, r):
-        self._emit("Resample", slots=self.cur_slots(r["core"].state))
+        core = r["core"]
+        st = core.state
+        labs_ok = True
+        cl = getattr(core.trainer, "clusterer", None)
+        beta = float(st.get_current("beta"))
+        if (getattr(self, "check_labels_from_model", True) and beta > 0.0 and core.config.clustering and cl is not None
+                and st._current.get("u") is not None and getattr(self, "_clusterer_fits", 0) > 0):
+            # the label of every active particle is the one the model that produced the proposal modes gives to that particle
+            try:
+                pred = getattr(self, "_orig_predict", cl.predict)
+                want = np.asarray(pred(np.asarray(st._current["u"])))
+                have = np.asarray(st._current.get("assignments"))
+                labs_ok = bool(have.shape == want.shape and np.array_equal(have, want))
+            except Exception:
+                labs_ok = False
+        self._emit("Resample", slots=self.cur_slots(st), labelsFromModel=labs_ok)
         self._mut_mark = self.evals
         self._inf_mark = self.inf_evals
 
